@@ -23,6 +23,7 @@ type SpecEnv struct {
 	resolve func(name string) (Term, bool) // fallback resolver (locals through DebugRefs, phis)
 	depth   int
 	nbound  int
+	renaming bool
 }
 
 func (e *SpecEnv) child() *SpecEnv {
@@ -246,6 +247,16 @@ func (e *SpecEnv) ident(name string) (Term, error) {
 				a := &Addr{kind: "cell", comp: cellComp(v.Type()), base: gn, typ: v.Type()}
 				return Term{S: e.vc.loadAddrIn(e.heap, a), Sort: e.vc.sortOf(v.Type()), T: v.Type()}, nil
 			}
+		}
+	}
+	// a variable that was renamed since the claimed set was generated (see locals.go)
+	if to, ok := e.vc.renames[name]; ok && to != name && !e.renaming {
+		e.renaming = true
+		t, err := e.ident(to)
+		e.renaming = false
+		if err == nil {
+			e.vc.trusted[fmt.Sprintf("contract name %q resolved to the renamed variable %q (same declaration position)", name, to)] = true
+			return t, nil
 		}
 	}
 	return Term{}, fmt.Errorf("unknown identifier %q", name)
